@@ -440,9 +440,9 @@ def _compare_closed(name, rows, kind, c, perm, ctx, index=None, index2=None):
                 raise Violation("%s: TN = %r although the finite-zone fractures lie exactly on a line (no scatter: TN should be 1)"
                                 % (name, bad[0]), bucket="collinear_TN")
     if s["n_runouts"] == 0 and kind == "load":
-        # F18_a: without run-outs ND is the line evaluated at load 0.1 in the caller's unit
+        # FC18_a: without run-outs ND is the line evaluated at load 0.1 in the caller's unit
         if not close(rb["ND"], want["ND"], RTOL):
-            if ctx.known("F18_a"):
+            if ctx.known("FC18_a"):
                 skip.add("ND")
             else:
                 raise Violation("%s: no run-outs, loads x %r: ND %r -> %r (k_1 = %r); ND is the line read off at load 0.1 of the "
@@ -733,7 +733,7 @@ def likelihood_reference(case, ctx):
 #  (c) TS optimised although the outcomes in the infinite zone do not determine it (probit ML scatter > 1e4, or the failure
 #      fraction does not increase with load, so that the likelihood has no maximum at all): MaxLikeInf exhausts its 400
 #      evaluations, MaxLikeFull its 1e4, and the point where the budget ran out (TS = 1e6 .. 1e23) is returned without a warning.
-#      Input predicate ts_undetermined().  Same root cause (convergence never checked): F14 for MaxLikeFull, F14_b for MaxLikeInf
+#      Input predicate ts_undetermined().  Same root cause (convergence never checked): F14 for MaxLikeFull, FC18_b for MaxLikeInf
 #      (for MaxLikeInf this input class is the only one in which it failed: 0 of 440 runs outside it).
 #  (d) The infinite zone holds run-outs only: SD is not identified, the likelihood is flat (= 0 contribution) for every SD well
 #      above the run-outs.  Equal likelihood, arbitrary SD/ND along the Basquin line: here the parameter level demands more than
@@ -863,7 +863,7 @@ def _fold(ts):
 def _ml_run(name, kind):
     inf_only = name == "MaxLikeInf"
     ll_of = ref_ll_infinite if inf_only else ref_loglike      # the function the analyser claims to maximise
-    fid = "F14_b" if inf_only else "F14"
+    fid = "FC18_b" if inf_only else "F14"
 
     def run(case, ctx):
         full = case["rows"]
